@@ -62,4 +62,46 @@ def parserSetOn (dev topic msg : Bytes) : Option (Nat × Nat) :=
     | none => none
   else none
 
+/-- supla_esp_mqtt_str2int restricted to what its callers use: the integer part of an optionally signed decimal number with an
+    optional fraction; none = err.  (minus, value of the integer part) -/
+def str2intParts (m : Bytes) : Option (Bool × Nat) :=
+  let minus := m.head? == some 45
+  let body := if minus then m.drop 1 else m
+  -- the integer part ends at the first '.' that is not the first character of the whole string
+  let ip := body.takeWhile (fun c => c != 46)
+  let rest := body.drop ip.length            -- [] or '.' :: fraction
+  let dotOk := rest = [] ∨ (rest.head? == some 46 && (minus || ip != []) && (rest.drop 1).all isDigB)
+  if ip.all isDigB ∧ dotOk ∧ ip ≠ [] then some (minus, decNat ip 0) else none
+
+/-- a percentage payload: 0..100 ("-0" counts as 0) -/
+def percentOf (m : Bytes) : Option Nat :=
+  match str2intParts m with
+  | some (minus, v) => if (minus ∧ v = 0) ∨ (¬ minus ∧ v ≤ 100) then some v else none
+  | none => none
+
+def sClosing : Bytes := [115, 101, 116, 47, 99, 108, 111, 115, 105, 110, 103, 95, 112, 101, 114, 99, 101, 110, 116, 97, 103, 101]  -- "set/closing_percentage"
+def sTilt : Bytes := [115, 101, 116, 47, 116, 105, 108, 116]                                                                      -- "set/tilt"
+
+/-- the action of an "execute_action" payload for a shutter -/
+def rsAction (m : Bytes) : Option Nat :=
+  if lcEq [115, 104, 117, 116] m then some 4
+  else if lcEq [114, 101, 118, 101, 97, 108] m then some 6
+  else if lcEq [115, 116, 111, 112] m then some 7
+  else if lcEq [114, 101, 99, 97, 108, 105, 98, 114, 97, 116, 101] m then some 8
+  else if lcEq [99, 97, 108, 105, 98, 114, 97, 116, 101] m then some 8
+  else none
+
+/-- supla_esp_mqtt_parser_rs_fb_action: (channel, action, percentage, tilt) -/
+def parserRs (dev topic msg : Bytes) : Option (Nat × Nat × Nat × Nat) :=
+  if topic = [] ∨ msg = [] ∨ dev = [] ∨ dev.length + 1 ≥ topic.length then none
+  else if dev.isPrefixOf topic && (topic.drop dev.length).head? == some 47 then
+    match parseIntWithPrefix sChannels (topic.drop (dev.length + 1)) with
+    | some (ch, rest) =>
+      if rest = sClosing then (percentOf msg).map (fun p => (ch, 5, p, 0))
+      else if rest = sTilt then (percentOf msg).map (fun p => (ch, 9, 0, p))
+      else if rest = sExec then (rsAction msg).map (fun a => (ch, a, 0, 0))
+      else none
+    | none => none
+  else none
+
 end SuplaVerif
